@@ -279,7 +279,20 @@ fn check_report(rep: &str, m: &Maps, tb: &Tables, via: &str, c11: bool, out: &mu
             let mut want_sev: BTreeSet<&'static str> = BTreeSet::new();
             for (i, fs) in &m.v {
                 if fs.iter().any(|(_, l)| !l.is_empty()) {
-                    want_sev.insert(severity_of(&tb.name[&Pat::V(*i)]));
+                    let sev = severity_of(&tb.name[&Pat::V(*i)]);
+                    if sev != "?" {
+                        want_sev.insert(sev);
+                    } else {
+                        // a vulnerability pattern the property does not name: its severity is whatever heading its
+                        // section stands under in this report
+                        for (pos, pat) in &p.sections {
+                            if *pat == Pat::V(*i) {
+                                if let Some(h) = p.severity_headings.iter().filter(|(hp, _)| hp < pos).last() {
+                                    want_sev.insert(h.1);
+                                }
+                            }
+                        }
+                    }
                 }
             }
             let got_sev: Vec<&'static str> = p.severity_headings.iter().map(|x| x.1).collect();
@@ -298,7 +311,7 @@ fn check_report(rep: &str, m: &Maps, tb: &Tables, via: &str, c11: bool, out: &mu
                 if let Pat::V(_) = pat {
                     let sev = severity_of(&tb.name[pat]);
                     let before = p.severity_headings.iter().filter(|(hp, _)| hp < pos).last();
-                    if before.map(|x| x.1) != Some(sev) {
+                    if sev != "?" && before.map(|x| x.1) != Some(sev) {
                         push(format!("{}:{}:under-wrong-heading", via, tb.name[pat]), format!("listed under the {} heading", sev), format!("preceding severity heading: {:?}", before.map(|x| x.1)));
                     }
                 }
